@@ -4,6 +4,8 @@ import (
 	"fmt"
 	"time"
 
+	"go.step.sm/crypto/jose"
+
 	"github.com/smallstep/certificates/authority/config"
 )
 
@@ -31,7 +33,24 @@ func (w *World) verdict(op string, at time.Time, token, res, chosen string) stri
 	case "reject":
 		return "rejected"
 	case "crash":
-		return "crash"
+		// which provisioner the token names (real lookup), to say where the request aborted
+		ty := "?"
+		func() {
+			defer func() { recover() }()
+			if tok, err := jose.ParseSigned(token); err == nil {
+				var cl jose.Claims
+				if tok.UnsafeClaimsWithoutVerification(&cl) == nil {
+					if p, err := w.ca.Auth.LoadProvisionerByToken(tok, &cl); err == nil {
+						for _, q := range w.provs {
+							if q.Name == p.GetName() {
+								ty = q.Ty
+							}
+						}
+					}
+				}
+			}
+		}()
+		return fmt.Sprintf("crash type=%s op=%s", ty, op)
 	}
 	a := w.analyse(op, at.UnixNano(), token)
 	if !a.parsed {
@@ -48,11 +67,14 @@ func (w *World) verdict(op string, at time.Time, token, res, chosen string) stri
 			ver = f.sig
 		case "x5c":
 			ver = f.sig && f.chain && f.dig
-		case "sshpop":
+		case "sshpop", "nebula":
 			ver = f.sig && f.chain
 		}
 		if chosen != "" && p.Name == chosen {
 			whoTy = p.Ty
+			if p.Ty == "acme" || p.Ty == "scep" {
+				return fmt.Sprintf("accept-unverified type=%s op=%s", p.Ty, op)
+			}
 			if !p.Init {
 				return fmt.Sprintf("accept-uninitialised type=%s op=%s", p.Ty, op)
 			}
@@ -81,7 +103,7 @@ func (w *World) verdict(op string, at time.Time, token, res, chosen string) stri
 		return fmt.Sprintf("accept-emptysub type=%s op=%s", who.Ty, op)
 	}
 	switch who.Ty {
-	case "jwk", "x5c", "sshpop":
+	case "jwk", "x5c", "sshpop", "nebula":
 		if cl.Issuer != who.Name {
 			return fmt.Sprintf("accept-wrongissuer type=%s op=%s", who.Ty, op)
 		}
